@@ -4,15 +4,19 @@ ROOT = os.path.dirname(os.path.dirname(os.path.abspath(__file__)))
 sys.path.insert(0, ROOT)
 TECH = "contract-based deductive verification: VCs generated from clang's typed AST of the real C code (Python ast for the Python layer), sidecar contracts, z3 / ideal-membership / cvc5 back ends"
 NOTES = {
- "C01": ("operator word of every WHFast (2 kernels x 6 correctors x corrector2 x 4 coordinate systems) and SABA (10 uncorrected types) step, extracted from the real part1/part2, meets the free-algebra order conditions of its advertised generalised order; rounding-envelope tolerance",
-         "exact sub-flows assumed (C02/C03/C12); convergence of the floating-point trajectory, adaptive integrators, EOS/JANUS/MERCURIUS orders, modified-kick/lazy kernels and SABA correctors not decided"),
+ "C01": ("operator word of every fixed-step scheme (WHFast all kernels/correctors/coordinates, SABA all 18 types, leapfrog, SEI, EOS 9x9, encounter-free MERCURIUS), extracted from the real part1/part2/synchronize, meets the free-algebra order conditions of its advertised order (first-order rounding envelope); IAS15 Gauss-Radau tables h, rr, c, d, w and their index use; BS sub-step sequence, extrapolation, modified midpoint and call order incl. particle write-back before user ODEs",
+         "exact sub-flows assumed (C02/C03/C12); convergence of the floating-point trajectory and adaptive step/order control not decided; jerk kick == [B,[A,B]] assumed; WHFast512 not compiled"),
  "C02": ("direct gravity routines: per-pair body contracts + iteration-space obligations (accumulation rule) against the softened Newtonian pair sum", "doubles as reals; accumulation rule trusted; tree walk and multipole bound not decided"),
- "C03": ("Stumpff/Stiefel functions, Kepler solver f-g update (Wronskian, energy) and mass parameter per coordinate system proved on the real code", "doubles as reals; exit-with-root of the iterations assumed; termination/NaN-freedom not decided"),
+ "C03": ("Stumpff/Stiefel functions (series, quadrupling, reduction), Newton fixed point => universal Kepler equation, f-g update (Wronskian, energy, angular momentum), hyperbolic bisection bracket = {dt/r_max, dt/r_min} ordered for both signs of dt, mass parameter per coordinate system and caller, proved on the real code",
+         "doubles as reals; exit-with-root of the iterations assumed; termination, NaN/overflow in floating point (native counterexample recorded) and WHFast512 not decided"),
  "C04": ("merge conserves mass/momentum/COM; diagnostics equal their definitions; COM steps; compensated summation", "doubles as reals; size of the energy error not decided"),
  "C05": ("descriptor table (as the compiler evaluates it) well formed against the real struct layout and complete: every member persisted, reconstructed or explicitly classified", "classification list is an assumption; bit-identical continuation argued from the persistence frame only"),
- "C06": ("reb_binary_diff emits a well-formed delta stream for arbitrary field sequences (inductive invariants over field boundaries)", "byte content uninterpreted; index walk and cadence not yet under contract"),
- "C07": ("heap ownership and index acceptance of the archive reader under an arbitrary truncation point (symbolic file length, nondeterministic short reads)", "FILE model: prefix truncation only"),
- "C08": ("reb_check_exit / integrate loop state machine over the reals with per-integrator step contracts", "doubles as reals; floating-point coincidences and adaptive termination not decided"),
+ "C06": ("reb_binary_diff emits a well-formed delta stream and emits a field iff it differs (new/vanished fields, var_config member-wise), overlay of a delta on blob 0 by the loader reproduces the live values, heartbeat cadence bookkeeping per call",
+         "byte content uninterpreted; induction over a whole run and >2 GiB offsets not decided"),
+ "C07": ("archive open under an arbitrary truncation point (symbolic file length, short reads): heap ownership on every path, a blob is accepted only with consistent END+trailer, index within the file; append protocol of reb_simulation_save_to_file (trailer rewritten only after the delta is complete); native truncation sweep as labelled bounded stand-in",
+         "FILE model: prefix truncation only; identity of accepted snapshots with the uninterrupted run is C06"),
+ "C08": ("reb_simulation_integrate_raw / reb_check_exit state machine over the reals for a per-step contract (exact finish, no backwards time, dt restored, no-op at t==tmax, status precedence, dt_last_done reset); the step contract itself proved on the real IAS15 / BS controllers and the real MERCURIUS / TRACE part2 (sign of dt kept, min_dt/max_dt, sub-steps never pass t+dt)",
+         "doubles as reals; floating-point coincidences at tmax and termination of adaptive loops not decided"),
  "C09": ("safe mode == unsafe + synchronize at operator-word level by induction over steps (base + step lemma on words extracted from the real code), sync idempotent, keep_unsynchronized restores p_jh", "merge laws of exact flows assumed; rounding differences not decided"),
  "C10": ("JANUS step(-dt) o step(dt) = id on the integer state (floating point uninterpreted + IEEE oddness), symmetric schemes palindromic", "IEEE oddness/commutativity axioms; int64 overflow not modelled"),
  "C11": ("orbital element <-> Cartesian maps: rejections, definedness, defining relations, anomaly conversions", "doubles as reals; trig axioms per occurrence; Newton convergence not decided"),
